@@ -393,9 +393,15 @@ func (b *Broker) RegisterPipeline(def Pipeline, opt ...Option) error {
 		registrationPolicy: opts.withPipelineRegistrationPolicy,
 	}
 
-	// Store the pipeline and then update the reference count of the nodes in that pipeline.
+	// If an existing pipeline is being overwritten, it no longer references its nodes.
+	if oldNodes, err := g.roots.Nodes(def.PipelineID); err == nil {
+		b.releaseNodes(oldNodes)
+	}
+
+	// Store the pipeline and then update the reference count of the nodes in
+	// that pipeline (once per distinct node ID).
 	g.roots.Store(def.PipelineID, pipelineReg)
-	for _, id := range def.NodeIDs {
+	for id := range root.flatten() {
 		nodeUsage, ok := b.nodes[id]
 		// We can be optimistic about this as we would have already errored above.
 		if ok {
@@ -404,6 +410,17 @@ func (b *Broker) RegisterPipeline(def Pipeline, opt ...Option) error {
 	}
 
 	return nil
+}
+
+// releaseNodes decrements the reference count of the specified nodes, as they
+// are no longer referenced by a pipeline.
+// This function assumes that the caller holds a lock
+func (b *Broker) releaseNodes(ids []NodeID) {
+	for _, id := range ids {
+		if nodeUsage, ok := b.nodes[id]; ok && nodeUsage.referenceCount > 0 {
+			nodeUsage.referenceCount--
+		}
+	}
 }
 
 // RemovePipeline removes a pipeline from the broker.
@@ -421,6 +438,11 @@ func (b *Broker) RemovePipeline(t EventType, id PipelineID) error {
 	g, ok := b.graphs[t]
 	if !ok {
 		return fmt.Errorf("no graph for EventType %s", t)
+	}
+
+	// The removed pipeline no longer references its nodes.
+	if nodes, err := g.roots.Nodes(id); err == nil {
+		b.releaseNodes(nodes)
 	}
 
 	g.roots.Delete(id)
